@@ -96,20 +96,6 @@ def allSharedNodes : Nodes → Bool
   | .cons n ns => allSharedNode n && allSharedNodes ns
 end
 
-mutual
-theorem noDead_of_noParts_node (n : Node) (d : Bool) (h : partNamesNode n = []) : noDeadIncNode n d = true := by
-  match n with
-  | .plain hd cs => simp only [partNamesNode] at h; simp only [noDeadIncNode]; exact noDead_of_noParts_nodes cs _ h
-  | .part .. => simp [partNamesNode] at h
-theorem noDead_of_noParts_nodes (ns : Nodes) (d : Bool) (h : partNamesNodes ns = []) : noDeadIncNodes ns d = true := by
-  match ns with
-  | .nil => rfl
-  | .cons n ns =>
-    simp only [partNamesNodes, List.append_eq_nil_iff] at h
-    simp only [noDeadIncNodes, Bool.and_eq_true]
-    exact ⟨noDead_of_noParts_node n d h.1, noDead_of_noParts_nodes ns d h.2⟩
-end
-
 /-- Stage 1 — templates without partials (nested block scopes, assignment order, macros, captures):
 the property holds in full, with no hypothesis. -/
 theorem analysis_sound_nopartials (ns : Nodes) (tmpl : Name) (hnp : partNamesNodes ns = []) (ch : List Bool) :
